@@ -84,7 +84,7 @@ class AlignmentTypeForSubstringTypes(Contract):
 @register
 class ERefkeyForS(Contract):
     fn = "gfapy/line/edge/gfa2/references.py::References._refkey_for_s"
-    props = ("C11",)
+    props = ("C11", "C16", "C02")
     doc = "collection of segment snum in which an E line is filed = e_refkey_ok (relation); both-whole: the two sides differ"
 
     def cases(self, ctx):
@@ -107,7 +107,7 @@ class ERefkeyForS(Contract):
 class ERefkeyBothWholeDiffer(Contract):
     id = "ERefkeyBothWholeDiffer"
     fn = "gfapy/line/edge/gfa2/references.py::References._refkey_for_s"
-    props = ("C11",)
+    props = ("C11", "C16", "C02")
     doc = "lemma over the paths of _refkey_for_s: when both intervals are whole the two segments get different collections"
 
     def cases(self, ctx):
@@ -134,7 +134,7 @@ class ERefkeyBothWholeDiffer(Contract):
 @register
 class GapRefkeyForS(Contract):
     fn = "gfapy/line/gap/references.py::References._refkey_for_s"
-    props = ("C11",)
+    props = ("C11", "C16", "C02")
     doc = "a gap is filed on the end of each side given by the two orientations (sid1 left through R when +, sid2 entered through L when +)"
 
     def cases(self, ctx):
